@@ -48,7 +48,12 @@ lines = C.lines
 
 
 def run(ctx):
-    C.run_prop(ctx, ID, MOD)
+    C.run_prop(ctx, ID, MOD, rule_extra=(
+        "C20 oracle after every step, on the live container and on a container object built afresh on the same data: for every stored "
+        "object - embedded JSON Schema present, listed and equal to the schema of the object's class; parent chain and provider equal "
+        "to the plugin system's; provider record lists the schema; the stored bytes validate (draft-07) against the embedded schema - "
+        "for instances whose fields come from the boundary pools (see above); a container with stored objects that cannot be built "
+        "afresh reports nothing (`freshly-opened-container-cannot-be-built`)."))
 
 
 def signature(case, detail):
